@@ -29,6 +29,31 @@ def fresh_pidfile_module():
     return mod
 
 
+class NView:
+    """A file-system snapshot that can be asked with any spelling of a path."""
+
+    def __init__(self, d, fs):
+        self.d, self.fs = d, fs
+
+    def get(self, k, default=None):
+        return self.d.get(self.fs.norm(k), default)
+
+    def __contains__(self, k):
+        return self.fs.norm(k) in self.d
+
+    def __iter__(self):
+        return iter(self.d)
+
+    def __eq__(self, other):
+        return self.d == (other.d if isinstance(other, NView) else other)
+
+    def __ne__(self, other):
+        return not self.__eq__(other)
+
+    def items(self):
+        return self.d.items()
+
+
 class World:
     """Replays an operation history on a fresh SimFS; checks invariants on the last operation."""
 
@@ -77,8 +102,8 @@ class World:
             ops.append(("die", n))
         for path in (P, P2):
             # 110 is a live process outside the model whose pid has A's / C's pid as a proper prefix; 1 is a prefix of both
-            for content in (b"", b"garbage\n", b"11\n", b"12\n", b"99\n", b"110\n", b"1\n"):
-                if self.fs.files.get(path) is None or self.fs.files[path].data != content:
+            for content in (b"", b"garbage\n", b"11\n", b"12\n", b"99\n", b"110\n", b"1\n", b"\xff\xfe1\x001\x00"):
+                if self.fs.files.get(self.fs.norm(path)) is None or self.fs.files[self.fs.norm(path)].data != content:
                     ops.append(("foreign", path, content))
         return ops
 
@@ -98,7 +123,7 @@ class World:
         if kind == "foreign":
             ino = simfs.Inode()
             ino.data = op[2]
-            fs.files[op[1]] = ino
+            fs.files[fs.norm(op[1])] = ino
             return bad
         n = op[1]
         i = self.inst[n]
@@ -107,7 +132,7 @@ class World:
         fs.deleted = []
         fs.log = []
         fs.crash_at = crash_at
-        before = fs.snapshot()
+        before = NView(fs.snapshot(), fs)
         live_before = set(fs.live)
         raised = None
         result = None
@@ -139,7 +164,7 @@ class World:
         self.last = {"raised": raised, "result": result, "log": list(fs.log)}
         if not check:
             return bad
-        after = fs.snapshot()
+        after = NView(fs.snapshot(), fs)
         # (5) nothing naming another live process may be deleted or overwritten
         for path, content, by, how in fs.deleted:
             own = self.owner(content)
@@ -147,7 +172,7 @@ class World:
                 bad.append(("deleted-live-foreign-file:%s" % kind, "%s (%s by pid %d) destroyed %s naming live pid %d" % (op, how, pid, path, own)))
         # only pid files may remain once an operation completed
         if raised != "crash":
-            extra = [p for p in after if p not in (P, P2)]
+            extra = [p for p in after if p not in (fs.norm(P), fs.norm(P2))]
             if extra:
                 bad.append(("temporary-file-left:%s" % kind, "%s left %r behind" % (op, extra)))
         if raised == "crash":
@@ -461,7 +486,8 @@ def callsite_part():
             for fp, text in c10.sim_judge(params, k, o):
                 if "pidfile" in fp:
                     viols.setdefault("callsite:reload:" + fp, violation("callsite:reload:" + fp, "history %r: %s" % (script, text), {"callsite": "reload"}))
-    for script in ([], [("parent-exit",)], [("parent-killed",)], [("parent-exit",), ("sig", "TERM")], [("sig", "TERM")], [("parent-exit",), ("sig", "USR2")]):
+    for script in ([], [("parent-exit",)], [("parent-killed",)], [("parent-exit",), ("sig", "TERM")], [("sig", "TERM")], [("parent-exit",), ("sig", "USR2")],
+                   [("parent-exit-subreaper",)], [("parent-exit-subreaper",), ("sig", "TERM")]):
         params = {"bind": "tcp", "daemon": False}
         k, o = c14.new_execute(params, list(script))
         n += 1
@@ -521,9 +547,29 @@ def callsite_part():
     return list(viols.values()), n
 
 
+def explore_relative(depth):
+    """The same search with a bare relative pid-file name (no directory part): the temporary file and the final name must
+    still be in the same directory (here /tmp is another file system than the working directory)."""
+    global P, P2
+    saved = (P, P2)
+    P, P2 = "app.pid", "app.pid.2"
+    try:
+        return explore(depth)
+    finally:
+        P, P2 = saved
+
+
 def run(ctx):
     depth = 7 if ctx.thorough else 6
     st = explore(depth)
+    st_rel = explore_relative(4 if ctx.thorough else 3)
+    for v in st_rel["viols"]:
+        v["fingerprint"] = v["fingerprint"] + ":relative-name"
+        v["case"]["relative"] = True
+    st["viols"] = list(st["viols"]) + list(st_rel["viols"])
+    st["states"] += st_rel["states"]
+    st["transitions"] += st_rel["transitions"]
+    st["crash_points"] += st_rel["crash_points"]
     cdepth, cap = (4, 1500) if ctx.thorough else (3, 400)
     checked, mism = conformance(cdepth, cap)
     viols = list(st["viols"])
@@ -560,6 +606,9 @@ def replay(case):
         return v[0] if v else None
     mod = fresh_pidfile_module()
     hist = _deser(case["history"])
+    if case.get("relative"):
+        global P, P2
+        P, P2 = "app.pid", "app.pid.2"
     w, bad = replay_history(mod, hist, crash_at=case.get("crash_at"))
     if bad:
         return violation(bad[0][0], bad[0][1], case)
